@@ -286,9 +286,22 @@ def run(ctx):
                 fh.write("%s\t%s\t%d\t%s\t%s\n" % (fnp, kind, n, cls, reason))
     table = c14.load_table(TABLE)
     classes = Counter()
+    budget = c14.moved_sites(inv, table)
+    excess = Counter()
+    for key, n in inv.items():
+        have = table.get(key)
+        if have is None or n > have[0]:
+            excess[(c14.crate_of(key[0]), key[1])] += n - (have[0] if have else 0)
     for key, n in sorted(inv.items()):
         have = table.get(key)
         where = "%s:%s" % lines[key][0]
+        ck = (c14.crate_of(key[0]), key[1])
+        if (have is None or n > have[0]) and excess[ck] <= budget[ck]:
+            classes["moved"] += n
+            ctx.ob("R9.1", "%s|%s" % key, True,
+                   "%d site(s) of kind %s appear here while %d left other functions of %s: moved, the multiset did not grow" % (
+                       n - (have[0] if have else 0), key[1], budget[ck], ck[0]), where)
+            continue
         if have is None or n > have[0]:
             ctx.ob("R9.1", "%s|%s" % key, False,
                    "new panic-capable site (%s) x%d reachable from lexing/parsing/formatting" % (key[1], n) if have is None else
